@@ -5,6 +5,7 @@ package kit
 
 import (
 	"context"
+	"time"
 
 	"github.com/tokenized/pkg/wire"
 
@@ -19,6 +20,8 @@ type c01World struct {
 	last   wire.Message // last message delivered to the node
 	heard  map[string]bool // blocks whose announcement has been delivered to the node
 	inSync int          // number of in-sync notifications seen so far (across restarts)
+	dead     bool       // the (faulted) node could not be restarted in place
+	tolerant bool       // storage faults are being injected: errors of the units are expected
 }
 
 func (w *c01World) pump() {
@@ -48,15 +51,22 @@ func (w *c01World) deliver() bool {
 
 func (w *c01World) process() {
 	err := vkProcessRun(w.ctx, w.k.node)
-	verifrt.Sig("process", "err")
-	verifrt.Assert(err == nil, "C01.process.no-error")
+	if err != nil {
+		verifrt.Note("processing run failed at node height %d (tip %s): %v", w.k.node.blocks.LastHeight(), w.tree.byHash[*w.k.node.blocks.LastHash()], err)
+	}
+	if !w.tolerant {
+		verifrt.Sig("process", "err")
+		verifrt.Assert(err == nil, "C01.process.no-error")
+	}
 	w.pump()
 }
 
 func (w *c01World) poll() {
 	err := w.k.node.check(w.ctx)
-	verifrt.Sig("check", "err")
-	verifrt.Assert(err == nil, "C01.check.no-error")
+	if !w.tolerant {
+		verifrt.Sig("check", "err")
+		verifrt.Assert(err == nil, "C01.check.no-error")
+	}
 	w.pump()
 }
 
@@ -70,10 +80,13 @@ func (w *c01World) restart() {
 	n.state.Reset()
 	w.inSync += w.countInSync()
 	k2, err := vkNewNode(w.ctx, w.k.store)
-	verifrt.Sig("restart", "load")
-	verifrt.Assert(err == nil, "C01.restart.loads")
+	if !w.tolerant {
+		verifrt.Sig("restart", "load")
+		verifrt.Assert(err == nil, "C01.restart.loads")
+	}
 	if err != nil {
-		verifrt.Assume(false)
+		w.dead = true
+		return
 	}
 	w.k = k2
 	w.k.node.state.SetVersionReceived()
@@ -132,4 +145,27 @@ func (w *c01World) converged() bool {
 	}
 	h := w.tree.hashes[best[len(best)-1]]
 	return *w.k.node.blocks.LastHash() == h
+}
+
+// settle runs the fair closure: consume everything queued, process, poll, and
+// let request time-outs fire (restart) when nothing else is enabled.
+func (w *c01World) settle(rounds int) {
+	for r := 0; r < rounds && !w.dead; r++ {
+		progressed := false
+		for w.deliver() {
+			progressed = true
+			w.process()
+		}
+		w.process()
+		w.poll()
+		if len(w.peer.toNode) > 0 {
+			progressed = true
+		}
+		if !progressed && !w.converged() {
+			verifrt.Advance(11 * time.Minute)
+			if terr := w.k.node.state.CheckTimeouts(); terr != nil {
+				w.restart()
+			}
+		}
+	}
 }
